@@ -416,7 +416,14 @@ struct StringStream {
         const SizeT     new_length = (Length() + len);
 
         if (Capacity() < new_length) {
-            expand(new_length);
+            // 'str' can point into this stream's own storage; release the old block after copying from it.
+            Char_T *old_storage = Storage();
+
+            expand(new_length, false);
+            Memory::Copy((Storage() + Length()), str, (len * size));
+            setLength(new_length);
+            Memory::Deallocate(old_storage);
+            return;
         }
 
         Memory::Copy((Storage() + Length()), str, (len * size));
@@ -424,14 +431,17 @@ struct StringStream {
         setLength(new_length);
     }
 
-    void expand(const SizeT new_capacity) {
+    void expand(const SizeT new_capacity, const bool release = true) {
         constexpr SizeT size = sizeof(Char_T);
         Char_T         *str  = Storage();
 
         allocate(new_capacity * SizeT{4});
 
         Memory::Copy(Storage(), str, (Length() * size));
-        Memory::Deallocate(str);
+
+        if (release) {
+            Memory::Deallocate(str);
+        }
     }
 
     void allocate(SizeT size) {
